@@ -432,7 +432,7 @@ def hUpdateSub (db : Db) (now : Time) (r : Option SubReq) (paths : List String) 
             let subs' := updateWhere (·.id == s.id) (fun _ => s') db.subs
             let db' := { db with subs := subs' }
             let topicName := match db.topicById s.topicId with | some t => t.name | none => ""
-            (db', { status := .ok, body := showSub db' s' topicName dlName true, wakes := [s.id] })
+            (db', { status := .ok, body := showSub db' s' topicName dlName false, wakes := [s.id] })
 
 def hDeleteSub (db : Db) (now : Time) (name : String) : Db × Resp :=
   if !isValidSubscriptionName name then (db, { status := .invalidArgument })
